@@ -1,6 +1,7 @@
 package checks
 
 import (
+	"os"
 	"fmt"
 	"sort"
 	"strings"
@@ -286,6 +287,9 @@ func scenarioGroup(w *pool.W, scs []*Scenario, tier string, runtime bool) error 
 		w.Count("evaluations")
 		w.CountN("transitions", res.Transitions)
 		w.Count("out:" + verdict.String() + "/real:" + out.Kind.String())
+		if os.Getenv("VERIF_CLASS_OUTCOMES") != "" { // development aid: verdicts per scenario class
+			w.Count(fmt.Sprintf("out:class:%v/%s/%s", sc.Desc["class"], verdict, out.Kind))
+		}
 		if verdict != model.OK || len(sc.Methods) > 1 || len(sc.ConvLines)+len(tm.Lines) > 0 {
 			w.Count("distinct_nontrivial_scenarios")
 		}
